@@ -9,9 +9,9 @@ import vlib  # noqa: E402
 
 
 def families():
-    import fam_ring, fam_inbox, fam_actor
+    import fam_ring, fam_inbox, fam_actor, fam_wire
     table = {}
-    for mod in (fam_ring, fam_inbox, fam_actor):
+    for mod in (fam_ring, fam_inbox, fam_actor, fam_wire):
         table.update(mod.CHECKS)
     return table
 
